@@ -36,7 +36,7 @@ func init() {
 }
 
 var c14CodeDev = []string{"FloatNoPoint", "MinIntLiteral", "NameForms", "QuoteEscapes", "ClosureNoEnv", "FuncOwnName",
-	"LossyFuncPrint", "ExtUsage", "QuoteMultiLine", "ScannerLimit", "NamedFuncNoLimit"}
+	"LossyFuncPrint", "ExtUsage", "QuoteMultiLine", "ScannerLimit", "NamedFuncNoLimit", "LiteralBindsOwnName"}
 
 // deviation -> the invariant TLC must find violated when only that deviation is on
 var c14DevInv = [][2]string{
@@ -45,6 +45,7 @@ var c14DevInv = [][2]string{
 	{"QuoteMultiLine", "OneLinePerBinding"}, {"ScannerLimit", "RoundTrip"}, {"NamedFuncNoLimit", "SkippedNotTruncated"},
 	{"Unsorted", "Sorted"}, {"Truncate", "SkippedNotTruncated"}, {"RawStrings", "OneLinePerBinding"},
 	{"ScannerByLimit", "RoundTrip"}, {"StaleText", "RoundTrip"},
+	{"SaveNoTrunc", "OneLinePerBinding"}, {"LiteralBindsOwnName", "RoundTrip"},
 }
 
 func c14Cfg(dev []string, maxLine int, scopes []string, limits []int, emit bool, invs []string, trace bool) string {
@@ -92,7 +93,8 @@ type c14Case struct {
 	LoadW   []json.RawMessage `json:"loadW"`
 	ResaveA []c14Line         `json:"resaveA"`
 	ResaveW []c14Line         `json:"resaveW"`
-	MV      map[string]bool   `json:"mv"` // the model's own verdict under the code's rules
+	Ext     []c14Line         `json:"ext"` // what save() leaves in the file the history left behind
+	MV      map[string]bool   `json:"mv"`  // the model's own verdict under the code's rules
 	// a session history (scope "hist"): the bindings it starts from, the steps run before the final save; Env is then
 	// the model's idea of what the session holds at the end
 	Env0Raw []json.RawMessage `json:"env0"`
@@ -377,6 +379,10 @@ type c14TR struct {
 	B        [][]any   `json:"b"`
 	A        c14TRPath `json:"a"`
 	W        c14TRPath `json:"w"`
+	// the "session" steps of the history: <<step, name, present, value in the ending session, value in the next one>> for
+	// every data global the ending session's auto-save writes; steps whose auto-save failed
+	HS    [][]any  `json:"hs"`
+	HSErr []string `json:"hserr"`
 }
 
 func c14Latin1All(xs []string) []string {
@@ -397,7 +403,15 @@ func c14CallObs(c c14Call) []any { return []any{c.Out, c.Val, c.Err, c.Timeout} 
 // c14Trace builds the record SaveLoad_Trace.tla judges from what the two children observed.
 func c14Trace(run *c14Run) c14TR {
 	sr, lr := &run.Save, &run.Load
-	t := c14TR{K: "case", ID: sr.ID, Lim: sr.Lim, N: sr.N, NU: sr.NU}
+	t := c14TR{K: "case", ID: sr.ID, Lim: sr.Lim, N: sr.N, NU: sr.NU, HS: [][]any{}, HSErr: []string{}}
+	for _, so := range sr.Sess {
+		if so.SaveErr != "" {
+			t.HSErr = append(t.HSErr, strconv.Itoa(so.Step))
+		}
+		for _, b := range so.Binds {
+			t.HS = append(t.HS, []any{strconv.Itoa(so.Step), b.Name, b.Present, b.Old, b.New})
+		}
+	}
 	lines := c14SplitLines(sr.File)
 	linesU := lines
 	if sr.Lim > 0 {
@@ -410,7 +424,7 @@ func c14Trace(run *c14Run) c14TR {
 			t.Names = append(t.Names, n)
 		}
 	}
-	t.SaveExt = sr.SaveErr == "" && bytes.Equal(sr.SaveExt, sr.File)
+	t.SaveExt = sr.SaveErr == "" && bytes.Equal(sr.SaveExt, sr.File) && sr.NameErr == "" && bytes.Equal(sr.SaveName, sr.File)
 	t.AutoSave = sr.AutoErr == "" && bytes.Equal(sr.AutoSave, sr.File)
 	lineNames := map[string]bool{}
 	for _, l := range lines {
@@ -624,6 +638,14 @@ func c14Judge(t c14TR) []string {
 	}
 	path(t.A, "A")
 	path(t.W, "W")
+	for _, h := range t.HS {
+		if !(h[2].(bool) && c14TSame(c14AsJ(h[3]), c14AsJ(h[4]))) {
+			fails = append(fails, "hrt:"+h[0].(string)+":"+h[1].(string))
+		}
+	}
+	for _, st := range t.HSErr {
+		fails = append(fails, "step:"+st)
+	}
 	return fails
 }
 
@@ -709,6 +731,9 @@ const (
 	sigScannerLimit = "autoload-line-of-admitted-value-not-read"
 	sigNoLimit      = "save-named-function-ignores-max-len"
 	sigRebound      = "save-nonliteral-name-rebound"
+	sigLiteral      = "save-named-function-value-rebinds-own-name"
+	sigSessStep     = "c14-session-step-failed"
+	sigNotBuilt     = "c14-session-not-built"
 	sigUnexpl       = "c14-roundtrip-mismatch"
 	sigLost         = "c14-binding-lost"
 	sigBehaviour    = "c14-function-behaviour-differs"
@@ -830,6 +855,62 @@ func c14Attribute(run *c14Run, t c14TR, fails []string) []c14Attr {
 			rebound["Inf"] = !(b.Val["t"] == "float" && math.IsInf(c14Float(b.Val), 1))
 		}
 	}
+	// own names of named functions that are written as values (held under another name / inside a container, the
+	// holder's line is in the file) while the own name is unbound or bound to something else in the saving session
+	ownOther := map[string]bool{}
+	for _, fo := range sr.Foreign {
+		if !fo.Other {
+			continue
+		}
+		for _, l := range lines {
+			if !c14IsFuncLine(l) && c14LineName(l) == fo.Holder {
+				ownOther[fo.Own] = true
+			}
+		}
+	}
+	// .. and after the reload that name holds the function of that name
+	reboundToOwn := func(tag, name string) bool {
+		o := &run.Load.A
+		if tag == "W" {
+			o = &run.Load.W
+		}
+		for _, lb := range o.Binds {
+			if lb.Name == name {
+				return ownOther[name] && lb.Present && lb.Own == name
+			}
+		}
+		return false
+	}
+	// saving the reloaded session differs from the file in lines of those names only
+	onlyOwnLinesDiffer := func(resave []byte) bool {
+		if len(ownOther) == 0 {
+			return false
+		}
+		had := map[string]bool{}
+		for _, l := range lines {
+			had[l] = true
+		}
+		now := map[string]bool{}
+		diff := 0
+		for _, l := range c14SplitLines(resave) {
+			now[l] = true
+			if !had[l] {
+				if !ownOther[c14LineName(l)] {
+					return false
+				}
+				diff++
+			}
+		}
+		for _, l := range lines {
+			if !now[l] {
+				if !ownOther[c14LineName(l)] {
+					return false
+				}
+				diff++
+			}
+		}
+		return diff > 0
+	}
 	// index of the first line the line reader cannot take; lines from there on are not loaded by AutoLoad
 	firstLong := -1
 	for i, l := range lines {
@@ -922,6 +1003,8 @@ func c14Attribute(run *c14Run, t c14TR, fails []string) []c14Attr {
 				add(f, sigPrinter, tag)
 			case !present:
 				add(f, sigLost, tag)
+			case reboundToOwn(tag, name):
+				add(f, sigLiteral, tag) // the data the name held is replaced by the function of that name
 			default:
 				out := map[string]bool{}
 				c14Explain(b.Val, v1, rebound, out)
@@ -942,6 +1025,8 @@ func c14Attribute(run *c14Run, t c14TR, fails []string) []c14Attr {
 				add(f, sigScannerLimit, tag)
 			case tag == "A" && afterLong(root) && !(b.Own != "" && b.Own != root):
 				add(f, sigScanner, tag)
+			case reboundToOwn(tag, root):
+				add(f, sigLiteral, tag) // the function the name held is replaced by the function of that name
 			case b.Own != "" && b.Own != root:
 				add(f, sigAlias, tag)
 			case tag == "W" && brokenBefore(root) != "":
@@ -984,12 +1069,35 @@ func c14Attribute(run *c14Run, t c14TR, fails []string) []c14Attr {
 			add(f, sigSaveExt, "")
 		case "autosave":
 			add(f, sigAutoSave, "")
+		case "step":
+			add(f, sigSessStep, "")
+		case "hrt": // a "session" step of the history: the next session does not hold what the ending one saved
+			name := parts[2]
+			for _, h := range t.HS {
+				if h[0].(string) != parts[1] || h[1].(string) != name {
+					continue
+				}
+				if !h[2].(bool) {
+					add(f, sigLost, "")
+					break
+				}
+				out := map[string]bool{}
+				c14Explain(c14AsJ(h[3]), c14AsJ(h[4]), rebound, out)
+				if out[""] || len(out) == 0 {
+					add(f, sigUnexpl, "")
+				} else {
+					for s := range out {
+						add(f, s, "")
+					}
+				}
+				break
+			}
 		}
 	}
 	// saving again differs: attributed to a loss already established on that path that changes the file
 	for _, f := range idem {
 		tag := strings.TrimPrefix(f, "idem:")
-		changes := []string{sigNegZero, sigMinInt, sigAlias, sigScanner, sigScannerLimit, sigExt, sigQuoteNL, sigEscape, sigRebound, sigPrinter}
+		changes := []string{sigNegZero, sigMinInt, sigAlias, sigScanner, sigScannerLimit, sigExt, sigQuoteNL, sigEscape, sigRebound, sigPrinter, sigLiteral}
 		done := false
 		for _, s := range changes {
 			if pathSigs[tag][s] {
@@ -1001,7 +1109,13 @@ func c14Attribute(run *c14Run, t c14TR, fails []string) []c14Attr {
 		if done {
 			continue
 		}
+		resave := run.Load.A.Resave
+		if tag == "W" {
+			resave = run.Load.W.Resave
+		}
 		switch {
+		case onlyOwnLinesDiffer(resave):
+			add(f, sigLiteral, "") // the own name of a function written as a value came back (the session had deleted it)
 		case hasNL:
 			add(f, sigQuoteNL, "")
 		case hasExt:
@@ -1193,6 +1307,9 @@ func c14ModelDiff(cs *c14Case, run *c14Run, baseNames map[string]bool) []string 
 		}
 	}
 	cmpLines("file", pick(run.Save.File), model(cs.Lines))
+	if cs.Ext != nil {
+		cmpLines("file after save()", pick(run.Save.SaveExt), model(cs.Ext))
+	}
 	cmpLines("resave after AutoLoad", pick(run.Load.A.Resave), model(cs.ResaveA))
 	cmpLines("resave after load()", pick(run.Load.W.Resave), model(cs.ResaveW))
 	cmpLoad := func(what string, obs *c14LoadObs, predRaw []json.RawMessage) {
@@ -1231,24 +1348,32 @@ func c14ProbeDeviations(root string) (dev []string, notes map[string]string, err
 	probes := []struct {
 		dev, id, src string
 		lim          int
+		steps        []string // inputs given to the session after src, before the final save
 	}{
-		{"FloatNoPoint", "probe:float", "a=3.0; b=-0.0", 0},
-		{"MinIntLiteral", "probe:minint", "a=-9223372036854775807-1", 0},
-		{"NameForms", "probe:names", "Inf=5; x=1.0/0", 0},
-		{"QuoteEscapes", "probe:escapes", `s="\x07\x08\x0b\x0c"`, 0},
-		{"ClosureNoEnv", "probe:closure", "func mk(x){func(y){x+y}}; add2=mk(2)", 0},
-		{"FuncOwnName", "probe:alias", "func f(a){a+1}; g=f", 0},
-		{"LossyFuncPrint", "probe:printer", "func f(a,b,c){a-(b-c)}; func g(a,b){a - -b}; func h(a,b){a; -b}; c=5; l=()=>{c=c+1}", 0},
-		{"ExtUsage", "probe:ext", "p=sprintf; z=5", 0},
-		{"QuoteMultiLine", "probe:quote", "x=quote(if a {b} else {c}); z=1", 0},
-		{"ScannerLimit", "probe:scanner", `a="` + long + `"; b=2`, 0},
-		{"NamedFuncNoLimit", "probe:limit", "func f(a,b){a+b+a+b}", 5},
-		// not a rule of the pinned code: the shape of a seeded change (a map keeps the text it was printed as)
-		{"StaleText", "probe:stale", `m={"a":1,"b":2,"c":3,"d":4,"e":5}; println(m); m.a=7; z=1`, 0},
+		{"FloatNoPoint", "probe:float", "a=3.0; b=-0.0", 0, nil},
+		{"MinIntLiteral", "probe:minint", "a=-9223372036854775807-1", 0, nil},
+		{"NameForms", "probe:names", "Inf=5; x=1.0/0", 0, nil},
+		{"QuoteEscapes", "probe:escapes", `s="\x07\x08\x0b\x0c"`, 0, nil},
+		{"ClosureNoEnv", "probe:closure", "func mk(x){func(y){x+y}}; add2=mk(2)", 0, nil},
+		{"FuncOwnName", "probe:alias", "func f(a){a+1}; g=f", 0, nil},
+		{"LossyFuncPrint", "probe:printer", "func f(a,b,c){a-(b-c)}; func g(a,b){a - -b}; func h(a,b){a; -b}; c=5; l=()=>{c=c+1}", 0, nil},
+		{"ExtUsage", "probe:ext", "p=sprintf; z=5", 0, nil},
+		{"QuoteMultiLine", "probe:quote", "x=quote(if a {b} else {c}); z=1", 0, nil},
+		{"ScannerLimit", "probe:scanner", `a="` + long + `"; b=2`, 0, nil},
+		{"NamedFuncNoLimit", "probe:limit", "func f(a,b){a+b+a+b}", 5, nil},
+		{"LiteralBindsOwnName", "probe:literal", "func f(a){a+1}; g=f; f=3", 0, nil},
+		// not rules of the pinned code: the shapes of seeded changes (a map keeps the text it was printed as; save() does
+		// not cut the file it writes over)
+		{"StaleText", "probe:stale", `m={"a":1,"b":2,"c":3,"d":4,"e":5}; println(m); m.a=7; z=1`, 0, nil},
+		{"SaveNoTrunc", "probe:notrunc", `a=1; zz=[1,2,3,4,5,6,7,8,9]`, 0, []string{"save()", "del(zz)"}},
 	}
 	var jobs []c14Job
 	for _, p := range probes {
-		jobs = append(jobs, c14Job{ID: p.id, Src: p.src, Lim: p.lim})
+		j := c14Job{ID: p.id, Src: p.src, Lim: p.lim}
+		for _, in := range p.steps {
+			j.Steps = append(j.Steps, c14Step{Op: "in", Src: in})
+		}
+		jobs = append(jobs, j)
 	}
 	runs, err := c14RunJobs(root, jobs, 4)
 	if err != nil {
@@ -1333,28 +1458,21 @@ func c14Par() int {
 // c14ModelCheck: MC of SaveLoad.tla - the repaired design on the whole universe, and one run per deviation.
 func c14ModelCheck(c *Ctx) error {
 	allInv := []string{"OneLinePerBinding", "Sorted", "RoundTrip", "SaveIdempotent", "SkippedNotTruncated"}
-	allScopes := []string{"mc", "int", "float", "byte", "str", "scalar", "arr", "map", "pair", "name", "long", "limit", "func", "boundary"}
+	allScopes := []string{"mc", "int", "float", "byte", "str", "scalar", "arr", "map", "pair", "name", "long", "limit", "func", "alias", "boundary"}
 	hscope := "histmc" // quick: one container of each kind; thorough: every history
 	if c.Thorough() {
 		hscope = "histall"
 	}
 	hDone := make(chan error, 1)
 	go func() { // the session histories (every step an action), beside the universe
-		r, err := c.TLC(TLCOpt{Spec: "SaveLoad", Cfg: c14Cfg(nil, c14ScanLimit, []string{hscope}, []int{0}, false, allInv, false), Workers: c.Pick(2, 6)})
+		r, err := c.TLC(TLCOpt{Spec: "SaveLoad", Cfg: c14Cfg(nil, c14ScanLimit, []string{hscope, "shrink"}, []int{0}, false, allInv, false), Workers: c.Pick(2, 6)})
 		if err == nil {
-			c.Note("MC repaired design (Dev = {}) over the session histories (%s): %d states, %d transitions, all of %v hold", hscope, r.Distinct, r.Generated, allInv)
+			c.Note("MC repaired design (Dev = {}) over the session histories (%s, shrink): %d states, %d transitions, all of %v hold", hscope, r.Distinct, r.Generated, allInv)
 		}
 		hDone <- err
 	}()
-	r, err := c.TLC(TLCOpt{Spec: "SaveLoad", Cfg: c14Cfg(nil, c14ScanLimit, allScopes, []int{0, 12, 40}, false, allInv, false), Workers: 6})
-	if herr := <-hDone; err == nil {
-		err = herr
-	}
-	if err != nil {
-		return err
-	}
-	c.Note("MC repaired design (Dev = {}) over the whole universe x limits {0,12,40}: %d states, %d transitions, all of %v hold", r.Distinct, r.Generated, allInv)
-	// ... and each actual rule of the code yields its design-level counterexample
+	// each actual rule of the code yields its design-level counterexample: one short run per deviation, started beside
+	// the two runs of the repaired design (they are joined below)
 	type devRes struct {
 		dev, want, got string
 		err            error
@@ -1379,7 +1497,15 @@ func c14ModelCheck(c *Ctx) error {
 			}
 		}(i, di[0], di[1])
 	}
+	r, err := c.TLC(TLCOpt{Spec: "SaveLoad", Cfg: c14Cfg(nil, c14ScanLimit, allScopes, []int{0, 12, 40}, false, allInv, false), Workers: 6})
+	if herr := <-hDone; err == nil {
+		err = herr
+	}
 	wg.Wait()
+	if err != nil {
+		return err
+	}
+	c.Note("MC repaired design (Dev = {}) over the whole universe x limits {0,12,40}: %d states, %d transitions, all of %v hold", r.Distinct, r.Generated, allInv)
 	cex := map[string]string{}
 	for _, dr := range results {
 		if dr.err != nil {
@@ -1435,18 +1561,14 @@ func checkC14(c *Ctx) {
 	defer func() { _ = waitSess() }()
 
 	// 3. GEN: the universe with the model's prediction under the code's actual rules
-	scopes := []string{"int", "float", "byte", "str", "scalar", "arr", "map", "pair", "name", "long", "func"}
+	scopes := []string{"int", "float", "byte", "str", "scalar", "arr", "map", "pair", "name", "long", "func", "alias"}
 	inv := []string{}
 	has := map[string]bool{}
 	for _, d := range codeDev {
 		has[d] = true
 	}
-	all := true
-	for _, d := range c14CodeDev {
-		all = all && has[d]
-	}
-	if all {
-		inv = []string{"PrintOK"} // with every rule of the pinned code on, the model's printed form is GrolValues!Inspect
+	if has["FloatNoPoint"] {
+		inv = []string{"PrintOK"} // with the pinned code's rule for floats on, the model's printed form of data is GrolValues!Inspect
 	}
 	limits := []int{1, 5, 12, 17, 40}
 	if c.Thorough() {
@@ -1480,7 +1602,7 @@ func checkC14(c *Ctx) {
 	go func() { defer gwg.Done(); genRun(&gU, scopes, []int{0}, inv) }()
 	go func() { defer gwg.Done(); genRun(&gL, []string{"limit"}, limits, nil) }()
 	go func() { defer gwg.Done(); genRun(&gB, []string{"boundary"}, blimits, nil) }()
-	go func() { defer gwg.Done(); genRun(&gH, []string{hscope}, []int{0}, nil) }()
+	go func() { defer gwg.Done(); genRun(&gH, []string{hscope, "shrink"}, []int{0}, nil) }() // .. and the file that is already there
 	tPhase = time.Now()
 	gwg.Wait()
 	c.Cov("wall_gen_tlc_s", time.Since(tPhase).Seconds())
@@ -1516,7 +1638,12 @@ func checkC14(c *Ctx) {
 	c.Cov("gen_cases", nGen)
 	c.Cov("random_combination_cases", nRand)
 
-	jobs := []c14Job{{ID: "c14:baseline"}}
+	// c14:baseline - what every fresh session binds; c14:calibrate - a history of the plainest kind (auto-save, next
+	// session, input, save()): if THAT does not work the harness is out of date (exit 2); a step that fails in a case
+	// while it works here is the code under test disagreeing with the model (a violation)
+	jobs := []c14Job{{ID: "c14:baseline"}, {ID: "c14:calibrate", Src: "cal=[1,2]; func calf(a){a+1}",
+		Api: []c14ApiBind{{Name: "calv", Val: c14Val{T: "int", V: json.RawMessage(`"7"`)}}}, Steps: []c14Step{{Op: "autosave"}, {Op: "session"},
+			{Op: "in", Src: "cal2=cal+3"}, {Op: "in", Src: "save()"}, {Op: "session"}}}}
 	byKey := map[string]*c14Case{}
 	for _, cs := range cases {
 		if byKey[cs.key()] != nil {
@@ -1543,11 +1670,18 @@ func checkC14(c *Ctx) {
 		baseNames[n] = true
 	}
 	c14BaseNames = baseNames
+	if cal := runs["c14:calibrate"]; cal == nil || cal.Save.SetupErr != "" || len(cal.Save.Sess) != 2 {
+		c.Infra(fmt.Errorf("calibration history could not be run: %+v", cal))
+		return
+	} else if t, err := c14Norm(c14Trace(cal)); err != nil || len(c14Judge(t)) > 0 || len(t.HS) < 3 {
+		c.Infra(fmt.Errorf("calibration history (auto-save, next session, input, save(), next session) fails on this tree: %v %v (session steps observed: %v)", err, c14Judge(t), t.HS))
+		return
+	}
 
 	// 3. TV: one record per case, SaveLoad_Trace.tla decides
 	var recs []c14TR
 	var kept []*c14Case
-	dropped := 0
+	dropped, unbuilt := 0, 0
 	for _, cs := range cases {
 		run := runs[cs.key()]
 		if run == nil {
@@ -1559,8 +1693,14 @@ func checkC14(c *Ctx) {
 				dropped++ // the generated text is not a valid function body (e.g. a top-level-only construct)
 				continue
 			}
-			c.Infra(fmt.Errorf("case %s could not be built in the saving session: %s", cs.key(), run.Save.SetupErr))
-			return
+			// The model says this session exists, the calibration history was built and judged on this very tree: the
+			// code under test refuses (or dies on) an input of the universe - a disagreement with the model, not a defect
+			// of the harness.
+			unbuilt++
+			c.Case(cs.key(), true)
+			c.Fail(sigNotBuilt, fmt.Sprintf("case %s (limit %d): the session the model describes cannot be built on this tree: %s (source: %.200q)", cs.ID, cs.Lim, run.Save.SetupErr, cs.Src),
+				map[string]any{"job": cs.job(), "fail": "build"})
+			continue
 		}
 		t, err := c14Norm(c14Trace(run))
 		if err != nil {
@@ -1572,6 +1712,7 @@ func checkC14(c *Ctx) {
 	}
 	cases = kept
 	c.Cov("generated_function_cases_dropped", dropped)
+	c.Cov("cases_not_buildable", unbuilt)
 	tPhase = time.Now()
 	if err := waitMC(); err != nil {
 		c.Infra(err)
@@ -1598,7 +1739,7 @@ func checkC14(c *Ctx) {
 	sigCases := map[string]int{}
 	for i, cs := range cases {
 		run, t := runs[cs.key()], recs[i]
-		c.Case(cs.key(), len(cs.Env) > 0 || cs.Src != "")
+		c.Case(cs.key(), len(cs.Env) > 0 || len(cs.Env0) > 0 || cs.Src != "")
 		tf, ok := verdicts[t.ID]
 		if !ok {
 			c.Infra(fmt.Errorf("no TLC verdict for %s", t.ID))
@@ -1722,12 +1863,57 @@ func c14Describe(run *c14Run, t c14TR, fail string) string {
 		return fmt.Sprintf("%d bindings, SaveGlobals returned %d, %d lines", len(t.Names), t.NU, len(t.LinesU))
 	case "skipped":
 		return fmt.Sprintf("with MaxValueLen=%d the file is not the unlimited file minus the lines whose value is longer", t.Lim)
+	case "hrt":
+		for _, h := range t.HS {
+			if h[0].(string) == parts[1] && h[1].(string) == parts[2] {
+				step, _ := strconv.Atoi(parts[1])
+				le := ""
+				for _, so := range run.Save.Sess {
+					if so.Step == step && so.LoadErr != "" {
+						le = " (repl.AutoLoad reported: " + so.LoadErr + ")"
+					}
+				}
+				if !h[2].(bool) {
+					return fmt.Sprintf("step %s of the history (auto-save, next session, auto-load): %s = %.120s is not bound in the next session%s", parts[1], parts[2], jstr(h[3]), le)
+				}
+				return fmt.Sprintf("step %s of the history (auto-save, next session, auto-load): %s%s", parts[1], c14FirstDiff(parts[2], c14AsJ(h[3]), c14AsJ(h[4])), le)
+			}
+		}
+	case "step":
+		for _, so := range run.Save.Sess {
+			if strconv.Itoa(so.Step) == parts[1] {
+				return fmt.Sprintf("step %s of the history: repl.AutoSave failed: %s", parts[1], so.SaveErr)
+			}
+		}
 	case "saveext":
-		return "save() wrote different bytes than State.SaveGlobals: " + run.Save.SaveErr
+		switch {
+		case run.Save.SaveErr != "":
+			return "save() wrote different bytes than State.SaveGlobals: " + run.Save.SaveErr
+		case !bytes.Equal(run.Save.SaveExt, run.Save.File):
+			return "save() left other bytes in the file than State.SaveGlobals writes: " + c14BytesDiff(run.Save.SaveExt, run.Save.File)
+		case run.Save.NameErr != "":
+			return `save("c14named") failed: ` + run.Save.NameErr
+		}
+		return `save("c14named") left other bytes in the file than State.SaveGlobals writes: ` + c14BytesDiff(run.Save.SaveName, run.Save.File)
 	case "autosave":
+		if run.Save.AutoErr == "" {
+			return "repl.AutoSave left other bytes in the file than State.SaveGlobals writes: " + c14BytesDiff(run.Save.AutoSave, run.Save.File)
+		}
 		return "repl.AutoSave wrote different bytes than State.SaveGlobals: " + run.Save.AutoErr
 	}
 	return fail
+}
+
+// c14BytesDiff: where the file on disk departs from the bytes of the state (for the report).
+func c14BytesDiff(disk, state []byte) string {
+	i := 0
+	for i < len(disk) && i < len(state) && disk[i] == state[i] {
+		i++
+	}
+	if i == len(state) && len(disk) > len(state) {
+		return fmt.Sprintf("the %d bytes of the state are followed by %d more: %.160q", len(state), len(disk)-len(state), disk[i:])
+	}
+	return fmt.Sprintf("%d bytes on disk, %d bytes of state, first difference at byte %d: %.100q on disk, %.100q in the state", len(disk), len(state), i, disk[i:], state[i:])
 }
 
 // c14FirstDiff names the first place where two observed values differ (for the report).
@@ -1947,7 +2133,25 @@ func c14SelfTest(c *Ctx, recs []c14TR, verdicts map[string][]string) string {
 			}
 		}
 	}
-	if len(probes) < 7 {
+	// (8) a "session" step inside a history: a global of the next session is not what the ending session saved
+	if t := pick(func(t c14TR) bool {
+		for _, h := range t.HS {
+			if t.K == "case" && strings.HasPrefix(t.ID, "hist:") && h[1].(string) == "m" {
+				return true
+			}
+		}
+		return false
+	}); t != nil {
+		for i, h := range t.HS {
+			if h[1].(string) == "m" {
+				t.HS[i] = []any{h[0], h[1], true, h[3], J{"t": "int", "v": "424242"}}
+				t.ID += "#sab8"
+				probes, want = append(probes, *t), append(want, "hrt:"+h[0].(string)+":m")
+				break
+			}
+		}
+	}
+	if len(probes) < 8 {
 		return fmt.Sprintf("only %d sabotage probes could be built: %v", len(probes), want)
 	}
 	got, err := c14TLCVerdicts(c, probes, 1)
@@ -1995,6 +2199,12 @@ func replayC14(rp map[string]any) (bool, string) {
 		os.Exit(2)
 	}
 	run := runs[job.ID]
+	if run != nil && fail == "build" {
+		if run.Save.SetupErr != "" {
+			return false, "the session cannot be built: " + run.Save.SetupErr
+		}
+		return true, ""
+	}
 	if run == nil || run.Save.SetupErr != "" {
 		fmt.Fprintln(os.Stderr, "INFRASTRUCTURE: case cannot be rebuilt:", run)
 		os.Exit(2)
